@@ -7,7 +7,7 @@ from concurrent.futures import ThreadPoolExecutor
 
 VERIF = os.path.dirname(os.path.dirname(os.path.abspath(__file__)))
 sys.path.insert(0, os.path.join(VERIF, 'tools'))
-EXTRA = {'C01': ['C14'], 'C13-1': ['C18'], 'C14': ['C01'], 'C07': ['C08'], 'C07-3': ['C10', 'C04'], 'C07-4': ['C04'], 'C20-5': ['C05'], 'C18-4': ['C13'], 'C19-6': ['C09'], 'C09-6': ['C11'], 'C19-5': ['C18'], 'C07-5': ['C03'], 'C13-5': ['C13'], 'C20-7': ['C01'], 'C03-6': ['C08'], 'C16-5': ['C10'], 'C18-3': ['C05', 'C06'], 'C08-5': ['C20'], 'C12-5': ['C05'], 'C15-4': ['C12'], 'C15-6': ['C01'], 'C11-6': ['C02'], 'C05-7': ['C01'], 'C01-8': ['C13'], 'C03-8': ['C08'], 'C20-9': ['C08'], 'C12-7': ['C05'], 'C09-4': ['C03'], 'C08-7': ['C03'], 'C03-7': ['C08']}
+EXTRA = {'C01': ['C14'], 'C13-1': ['C18'], 'C14': ['C01'], 'C07': ['C08'], 'C07-3': ['C10', 'C04'], 'C07-4': ['C04'], 'C20-5': ['C05'], 'C18-4': ['C13'], 'C19-6': ['C09'], 'C09-6': ['C11'], 'C19-5': ['C18'], 'C07-5': ['C03'], 'C13-5': ['C13'], 'C20-7': ['C01'], 'C03-6': ['C08'], 'C16-5': ['C10'], 'C18-3': ['C05', 'C06'], 'C08-5': ['C20'], 'C12-5': ['C05'], 'C15-4': ['C12'], 'C15-6': ['C01'], 'C11-6': ['C02'], 'C05-7': ['C01'], 'C01-8': ['C13'], 'C03-8': ['C08'], 'C20-9': ['C08'], 'C12-7': ['C05'], 'C09-4': ['C03'], 'C08-7': ['C03'], 'C03-7': ['C08'], 'C04-6': ['C15']}
 args = sys.argv[1:]
 jobs = 4
 if args[:1] == ['-j']:
